@@ -317,7 +317,7 @@ def check_docs_agreement(repo, rep, tables: dict) -> None:
     if not d.is_dir():
         rep.defer("docs/service_classes not found: the documentation oracle for the status tables is unavailable")
         return
-    n_files = n_rows = 0
+    n_files = n_rows = n_ranges = 0
     cat_word = {"success": "STATUS_SUCCESS", "warning": "STATUS_WARNING", "failure": "STATUS_FAILURE", "cancel": "STATUS_CANCEL", "pending": "STATUS_PENDING"}
     for f in sorted(d.glob("*.rst")):
         name = f.stem.upper() + "_STATUS"
@@ -339,6 +339,19 @@ def check_docs_agreement(repo, rep, tables: dict) -> None:
             got = None if ent is None else str(ent[0] if isinstance(ent, (tuple, list)) else ent)
             ok = ent is not None and got.lower() in (cat.lower(), want.lower())
             rep.check(ok, "docs-agreement", f"status.{name}", f"{code} documented as {cat} in {f.name}: table has {ent if ent is None else got}", f"{f.name} documents status {code} ({cat}) for this service class but {name} {'has no entry for it' if ent is None else 'files it under ' + str(got)}: a peer's {code} is then not recognised as {cat} by the service class that uses the table", mod=st, node=st.assign_stmts[name][0] if name in st.assign_stmts else st.tree)
+        # documented ranges ("0xC000 to 0xCFFF | Failure"): every code of the range, both ends included, is a key
+        for lo_, hi_, cat in re.findall(r"^\|\s*(0x[0-9A-Fa-f]{4})\s+to\s+(0x[0-9A-Fa-f]{4})\s*\|\s*(\w+)", f.read_text(encoding="utf-8"), re.M):
+            want = cat_word.get(cat.lower())
+            if want is None:
+                continue
+            lo_i, hi_i = int(lo_, 16), int(hi_, 16)
+            if not any(c in tb for c in range(lo_i, hi_i + 1)):
+                continue  # the table does not spell this range out at all (looked up by category): nothing to compare
+            n_ranges += 1
+            missing = [c for c in range(lo_i, hi_i + 1) if c not in tb]
+            wrong = [c for c in range(lo_i, hi_i + 1) if c in tb and str(tb[c][0] if isinstance(tb[c], (tuple, list)) else tb[c]).lower() not in (cat.lower(), want.lower())]
+            rep.check(not missing and not wrong, "docs-agreement", f"status.{name}", f"{lo_} to {hi_} documented as {cat} in {f.name}: {len(missing)} codes missing, {len(wrong)} with another category", f"{f.name} documents the whole range {lo_}..{hi_} ({cat}) for this service class but {name} lacks {[hex(c) for c in missing[:4]]}{' ...' if len(missing) > 4 else ''}{' / has another category for ' + str([hex(c) for c in wrong[:4]]) if wrong else ''}: a handler or peer using that code is treated as 'unknown status' (an off-by-one at the end of a range drops exactly the last code)", mod=st, node=st.assign_stmts.get(name, [st.tree])[0])
+    rep.counters["documented status ranges compared"] = n_ranges
     rep.floor("documentation files matched to a status table", n_files, 6)
     rep.floor("documented status rows compared", n_rows, 40)
 
